@@ -211,3 +211,58 @@ def path_lin_facts(path_prefix, symmap):
             if a is not None and b is not None:
                 facts += linear.atom_facts(op, a, b)
     return facts
+
+
+def member_access(cls):
+    """decl id -> 'public' | 'protected' | 'private' for the members of a class (order of AccessSpecDecl)"""
+    out = {}
+    cur = "private" if cls.get("tagUsed") == "class" else "public"
+    for c in ir.kids(cls):
+        if c.get("kind") == "AccessSpecDecl":
+            cur = c.get("access", cur)
+            continue
+        out[c.get("id")] = cur
+        for x in ir.kids(c):
+            if x.get("kind") in ir.FUNC_KINDS:
+                out[x.get("id")] = cur
+    return out
+
+
+def calls_private_helper(S, fn, access=None):
+    """does fn call a non-public member function of the same class that has a body (a helper its obligations may have been moved into)?"""
+    access = access or member_access(S.cls)
+    for n in ir.walk_expr(fn):
+        if this_member_call(n) is not None:
+            t = member_target(S.d, n)
+            if t is not None and ir.has_body(t) and access.get(t.get("id"), "public") != "public" and t.get("name") not in (
+                    "check_index", "check_index_strict", "compare_impl", "update_null_termination"):
+                return t
+    return None
+
+
+def local_sx(fn):
+    """name -> sx of the initialiser for single-assignment locals"""
+    assigned = set()
+    out = {}
+    for n in ir.walk_expr(fn):
+        if n.get("kind") == "VarDecl" and ir.ekids(n):
+            out[n.get("name")] = ir.sx(ir.ekids(n)[-1])
+        if n.get("kind") in ("BinaryOperator", "CompoundAssignOperator") and n.get("opcode", "").endswith("=") and n.get("opcode") not in ("==", "!=", "<=", ">="):
+            l = ir.strip(ir.ekids(n)[0])
+            if l.get("kind") == "DeclRefExpr":
+                assigned.add((l.get("referencedDecl") or {}).get("name"))
+        if n.get("kind") == "UnaryOperator" and n.get("opcode") in ("++", "--"):
+            l = ir.strip(ir.ekids(n)[0])
+            if l.get("kind") == "DeclRefExpr":
+                assigned.add((l.get("referencedDecl") or {}).get("name"))
+    return {k: v for k, v in out.items() if k not in assigned}
+
+
+def subst_locals(t, loc, depth=0):
+    if not isinstance(t, tuple) or depth > 10:
+        return t
+    if t[0] == "cast":
+        return subst_locals(t[3], loc, depth + 1)
+    if t[0] == "ref" and t[1] in loc:
+        return subst_locals(loc[t[1]], loc, depth + 1)
+    return tuple(subst_locals(x, loc, depth + 1) if isinstance(x, tuple) else x for x in t)
